@@ -70,7 +70,7 @@ theorem accepted_is_body (md5 : Bytes → Bytes) (size : Int) (body : Bytes) (ta
 
 theorem put_err_unchanged (md5 : Bytes → Bytes) (m : Mem) (b : Bytes) (k : Key) (md : Meta) (body : Bytes) (c : ErrCode)
     (h : (m.put md5 b k md body).2 = .err c) : (m.put md5 b k md body).1 = m := by
-  unfold Mem.put at *
+  unfold Mem.put Mem.putCommit at *
   cases hb : SMap.find m.buckets b with
   | none => simp [hb]
   | some bk => simp [hb] at h
@@ -103,7 +103,7 @@ theorem rejected_unchanged (md5 : Bytes → Bytes) (cfg : Cfg) (ucfg : UploadCfg
           cases r2 with
           | panic s =>
             exfalso
-            unfold Mem.put at hp
+            unfold Mem.put Mem.putCommit at hp
             cases hb : SMap.find m1.buckets b <;> simp [hb] at hp
           | err c =>
             have := put_err_unchanged md5 m1 b k rq.md bytes c (by rw [hp])
